@@ -11,6 +11,7 @@ mod gen;
 mod ops;
 mod rng;
 mod wire;
+mod wire_sol;
 
 use std::collections::BTreeMap;
 use std::io::Write;
@@ -167,7 +168,9 @@ fn main() {
         }
     }
     // panics of the code under test are caught per case; keep stderr quiet
-    std::panic::set_hook(Box::new(|_| {}));
+    if std::env::var("VERIF_DEBUG").is_err() {
+        std::panic::set_hook(Box::new(|_| {}));
+    }
     let ctx = Ctx { prop: prop.clone(), tier, seed, replay, corpus_dir };
     let mut out = Out::default();
     if !ops::run(&ctx, &mut out) {
